@@ -1058,6 +1058,26 @@ func ruleC13Nil(c *Ctx) {
 			}
 		}
 	}
+	if !okF {
+		// whatever the dispatch looks like (a table of per-type functions indexed by the tag): decided by running
+		// FieldToString with the tag TypeString and looking at what it returns
+		res, derr := Decide(fts, func(v ssa.Value) (AV, bool) {
+			if len(fts.Params) == 2 {
+				if v == ssa.Value(fts.Params[0]) {
+					return avInt(typeString), true
+				}
+				if v == ssa.Value(fts.Params[1]) {
+					return AV{Kind: "nonnil", Sym: "payload"}, true
+				}
+			}
+			return AV{}, false
+		}, nil)
+		if derr == "" && len(res) == 1 && res[0].Kind == "nonnil" {
+			okF = true
+		} else if derr != "" {
+			whyF += " (and the function could not be evaluated for that tag: " + derr + ")"
+		}
+	}
 	c.Check(okF, "C13.NIL", "boltz.FieldToString", p.Pos(fts.Pos()), "TypeString decodes through BytesToString (non-nil)", whyF)
 	_ = strings.TrimSpace
 }
